@@ -10,6 +10,7 @@ import (
 	"strings"
 	"sync"
 	"time"
+	"unicode/utf8"
 
 	"github.com/kstenerud/go-concise-encoding/ce"
 	"github.com/kstenerud/go-concise-encoding/configuration"
@@ -168,6 +169,12 @@ func checkC09(c *Check) {
 			skipRel := noRelations[hex.EncodeToString(doc)]
 			mu.Unlock()
 			if skipRel {
+				c.AddTraces(1)
+				continue
+			}
+			if format == "cte" && !utf8.Valid(doc[:k]) {
+				// cut inside a multi-byte character: the text is not UTF-8 and is refused as a whole, nothing
+				// of it was decoded (the error / no panic part above applies; the relations resume at the next cut)
 				c.AddTraces(1)
 				continue
 			}
